@@ -267,7 +267,7 @@ def axes(ctx, R="R-C15-axes"):
               "target_axis and concatenate are stored as given", "stored as %s / %s" % (st.get("self._target_axis"), st.get("self.concatenate")))
     oa = [n for n in f.body_nodes() if isinstance(n, ast.Assign) and astq.is_name(n.targets[0], "other_axes")]
     ok = len(oa) == 1 and astq.eq_text(oa[0].value, "tuple((idxforidxinrange(features.ndim)ifidx!=axis%features.ndim))")
-    ctx.check(ok, R, f, oa[0] if oa else MISSING(f.node), "the filtered axis is normalised modulo the input's rank", "other_axes is %s" % (astq.text(oa[0].value) if oa else None))
+    ctx.check(ok, R, f, oa[0] if oa else MISSING(f.node), "the filtered axis is normalised modulo the input's rank", "other_axes is %s" % (astq.text(oa[0].value) if oa else None), structural=True)
 
 
 def _axis_contradiction(ctx, R, f):
